@@ -70,8 +70,25 @@ var c05ZipShapes = func() []string {
 			out = append(out, fmt.Sprintf("rep%d", b+d), fmt.Sprintf("json%d", b+d))
 		}
 	}
-	return append(out, "rep3000", "rep6000", "json5000", "rep32767", "rep32768", "rep32769")
+	return append(out, "rep3000", "rep6000", "json5000", "rep32767", "rep32768", "rep32769", "rep249999", "rep250000", "rep250001")
 }()
+
+// c05CapShapes: plaintext sizes around plausible decompression caps (2^16, 10^5, 250000 ± 1, 2^18 ± 1, 10^6, 2^20 ± 1,
+// 4·2^20 in thorough), each highly compressible (rep), moderately compressible (mod) and incompressible (rnd).
+// Used by C06's compression stream.
+func c05CapShapes(thorough bool) []string {
+	sizes := []int{1 << 16, 100000, 249999, 250000, 250001, 1<<18 - 1, 1 << 18, 1<<18 + 1, 1000000, 1<<20 - 1, 1 << 20, 1<<20 + 1}
+	if thorough {
+		sizes = append(sizes, 4<<20)
+	}
+	var out []string
+	for _, n := range sizes {
+		for _, kind := range []string{"rep", "mod", "rnd"} {
+			out = append(out, fmt.Sprintf("%s%d", kind, n))
+		}
+	}
+	return out
+}
 
 // c05ZipAlgs: one algorithm per family for the compression stream.
 var c05ZipAlgs = []string{"A128KW", "dir", "RSA-OAEP", "A256GCMKW", "PBES2-HS256+A128KW", "ECDH-ES", "ECDH-ES+A256KW"}
@@ -114,6 +131,16 @@ func c05Plaintext(shape string, r *vf.Rand, quick bool) []byte {
 		unit := []byte(`{"iss":"joe","exp":1300819380,"http://example.com/is_root":true,"list":[1,2,3,{"a":null}]},`)
 		out := append([]byte("["), bytes.Repeat(unit, n/len(unit)+1)...)
 		return append(out[:n-1], ']')
+	case strings.HasPrefix(shape, "mod"): // mod<bytes>: moderately compressible (16-symbol alphabet, about 2:1)
+		fmt.Sscanf(shape, "mod%d", &n)
+		out := r.Bytes(n)
+		for i := range out {
+			out[i] = 'a' + out[i]&15
+		}
+		return out
+	case strings.HasPrefix(shape, "rnd"): // rnd<bytes>: incompressible
+		fmt.Sscanf(shape, "rnd%d", &n)
+		return r.Bytes(n)
 	case strings.HasPrefix(shape, "mix"): // mix<bytes>: a random head then a long run (boundary inside a run)
 		fmt.Sscanf(shape, "mix%d", &n)
 		head := r.Bytes(n / 8)
